@@ -137,18 +137,40 @@ def install(I, B):
             if not isinstance(fn, FuncVal):
                 raise Unsupported("forall/exists needs a lambda")
             names = [x.arg for x in fn.node.args.args]
-            sorts = a[1:] if len(a) > 1 else ["int"] * len(names)
-            vs = [I.fresh(s if isinstance(s, str) else "int", "q_" + n) for n, s in zip(names, sorts)]
+            sorts = list(a[1:]) + ["int"] * (len(names) - len(a[1:]))
+            vs, args = [], []
+            for n, s in zip(names, sorts):
+                if isinstance(s, ClassVal) or s == "obj":
+                    v = I.fresh(obj_sort(), "q_" + n)
+                    vs.append(v)
+                    args.append(HObj(v, s if isinstance(s, ClassVal) else None))
+                else:
+                    v = I.fresh(s if isinstance(s, str) else "int", "q_" + n)
+                    vs.append(v)
+                    args.append(v)
             trial = st.fork()
-            outs = list(I.call(fn, vs, {}, trial))
-            if len(outs) != 1 or isinstance(outs[0][1], Exc):
-                raise Unsupported("quantifier body forks or raises")
-            s1, body = outs[0]
-            extra = s1.pc[len(st.pc):]
-            t = z3val(I.truth(body, s1))
-            if extra:
-                # side conditions produced while evaluating the body (e.g. in-bounds) are premises
-                t = z3.Implies(z3.And(*extra), t) if which == "forall" else z3.And(*(extra + [t]))
+            I.spec_mode += 1
+            try:
+                outs = list(I.call(fn, args, {}, trial))
+            finally:
+                I.spec_mode -= 1
+            if any(isinstance(v, Exc) for _, v in outs) or not outs:
+                raise Unsupported("quantifier body raises: %s" % [(getattr(v, "exc", None) and (v.exc.name, v.exc.args)) or "ok" for _, v in outs])
+            n0 = len(st.pc)
+            if len(outs) == 1:
+                s1, body = outs[0]
+                extra = s1.pc[n0:]
+                t = z3val(I.truth(body, s1))
+                if extra:
+                    # side conditions produced while evaluating the body (e.g. sqrt facts) are premises
+                    t = z3.Implies(z3.And(*extra), t) if which == "forall" else z3.And(*(extra + [t]))
+            else:
+                # the body split into cases: the cases partition, so body = OR_k (case_k and value_k)
+                parts = []
+                for s1, body in outs:
+                    delta = s1.pc[n0:]
+                    parts.append(z3.And(*(delta + [z3val(I.truth(body, s1))])) if delta else z3val(I.truth(body, s1)))
+                t = z3.Or(*parts)
             yield st, (z3.ForAll(vs, t) if which == "forall" else z3.Exists(vs, t))
 
         return f
@@ -157,10 +179,11 @@ def install(I, B):
     B["exists"] = Builtin("spec.exists", quant("exists"))
 
     def entry(I, st, name):
-        e = st.frame.entry
-        if e is None or name not in e:
-            raise Unsupported("entry(%s): no such parameter" % name)
-        return e[name]
+        for fr in reversed(st.frames):
+            e = fr.entry
+            if e is not None and name in e and not fr.is_harness:
+                return e[name]
+        raise Unsupported("entry(%s): no such parameter" % name)
 
     reg("entry", entry)
 
@@ -252,6 +275,17 @@ def install(I, B):
 
     B["choose"] = Builtin("spec.choose", choose)
 
+    def ufb(I, st, name, *args):
+        """uninterpreted predicate over reals (an abstract set / property)"""
+        zs = []
+        for a in args:
+            z = z3val(as_arith(a))
+            zs.append(z3.ToReal(z) if z3.is_int(z) else z)
+        f = I.func("ufb_" + name, *([z3.RealSort()] * len(zs) + [z3.BoolSort()]))
+        return f(*zs)
+
+    reg("ufb", ufb)
+
     def to_real(I, st, x):
         x = as_arith(x)
         if is_z3(x) and z3.is_int(x):
@@ -278,6 +312,8 @@ def install(I, B):
     # abstract heap --------------------------------------------------------------------
     def declare_field(I, st, name, kind, cls=None):
         I.heap_decls[name] = (kind, cls)
+        field_array(I, st, name)
+        I._decl_heap = dict(st.heap)
         return None
 
     reg("declare_field", declare_field)
